@@ -120,6 +120,8 @@ class Interp:
         scapymodel.install(self)
         from . import regex
         regex.install(self)
+        from . import dpktmodel
+        dpktmodel.install(self)
 
     # ------------------------------------------------------------------ modules
     def module(self, name):
@@ -323,7 +325,15 @@ class Interp:
         if isinstance(init, FuncVal):
             self.call_func(init, [o] + list(args), kwargs, force_body=True)
         elif args or kwargs:
-            raise PyExc("TypeError", "%s() takes no arguments" % c.name)
+            ext = [b for k in self.mro(c) for b in (k._bases or []) if isinstance(b, External)]
+            unpack = self.class_lookup(c, "unpack")
+            if ext and isinstance(unpack, FuncVal) and len(args) == 1 and not kwargs:
+                # dpkt.Packet semantics (assumed): Class(buf) == unpack(buf) on a fresh instance
+                hdr = self.class_lookup(c, "__hdr__")
+                o.attrs["__hdr_len__"] = sum({"I": 4, "H": 2, "q": 8, "B": 1, "b": 1}[f[1]] for f in hdr)
+                self.call_func(unpack, [o, args[0]], {}, force_body=True)
+            else:
+                raise PyExc("TypeError", "%s() takes no arguments" % c.name)
         return o
 
     def bind_args(self, f, args, kwargs):
@@ -375,7 +385,13 @@ class Interp:
         self.call_depth += 1
         try:
             if _is_generator(f.node):
-                raise Unsupported("generator function %s" % q)
+                # generators are consumed only by `for`/list(): run eagerly, collecting the yielded values
+                frame.yields = []
+                try:
+                    self.exec_block(f.node.body, frame)
+                except _Return:
+                    pass
+                return GeneratorVal(frame.yields)
             self.exec_block(f.node.body, frame)
         except _Return as r:
             return r.value
@@ -490,6 +506,8 @@ class Interp:
             raise PyExc(v.cls, v.msg)
         if isinstance(v, ExcClass):
             raise PyExc(v.name, "")
+        if isinstance(v, External):
+            raise PyExc(v.dotted.split(".")[-1], "")
         raise Unsupported("raise of %r" % (v,))
 
     def st_Try(self, s, f):
@@ -663,6 +681,10 @@ class Interp:
             return list(it)
         if isinstance(it, ClassVal) and it.is_enum:
             return list(it.members.values())
+        if isinstance(it, GeneratorVal):
+            return list(it.values)
+        if isinstance(it, Obj) and it.cls is not None and self.class_lookup(it.cls, "__iter__") is not UNBOUND:
+            return self.iterate(self.call_func(self.class_lookup(it.cls, "__iter__"), [it], {}))
         if hasattr(it, "pyvc_iter"):
             return it.pyvc_iter(self)
         raise Unsupported("iteration over %s" % type(it).__name__)
@@ -763,6 +785,12 @@ class Interp:
                     return v
                 if name == "__class__":
                     return o.cls
+                for k in self.mro(o.cls):
+                    for b in (k._bases or []):
+                        if isinstance(b, External):
+                            fn = self.models.get(b.dotted + "." + name)
+                            if fn is not None:
+                                return BoundModel(o, fn, b.dotted + "." + name)
             if o.kind is not None:
                 fn = self.models.get(o.kind + "." + name)
                 if fn is not None:
@@ -994,6 +1022,14 @@ class Interp:
     def subscript(self, o, k):
         return self.models["__getitem__"](self, o, k)
 
+    def ex_Yield(self, e, f):
+        if not hasattr(f, "yields"):
+            raise Unsupported("yield outside a generator frame")
+        f.yields.append(self.eval(e.value, f) if e.value is not None else None)
+        if len(f.yields) > 4096:
+            raise Unsupported("generator yields too many values to unroll")
+        return None
+
     def ex_Lambda(self, e, f):
         return LambdaVal(e, f)
 
@@ -1075,6 +1111,18 @@ class _ClassScope(dict):
 
     def get(self, k, d=None):
         return self[k] if k in self else d
+
+
+class GeneratorVal:
+    def __init__(self, values):
+        self.values = values
+
+
+class LazyIter:
+    """iter(obj) that is created but never consumed by the code under contract"""
+
+    def __init__(self, obj):
+        self.obj = obj
 
 
 class _LiveList:
